@@ -22,7 +22,7 @@ import (
 // value. Pinned by profile.TestNormalizeByDifferentProfile.
 const KnownNormalize = "C07-normalize-drops-sample-with-unscaled-nonzero-column"
 
-var unitFactor = map[string]int64{"count": 1, "nanoseconds": 1, "microseconds": 1000, "milliseconds": 1000000, "bytes": 1, "kilobytes": 1024}
+var unitFactor = map[string]int64{"count": 1, "nanoseconds": 1, "microseconds": 1000, "milliseconds": 1000000, "bytes": 1, "kilobytes": 1024, "nanogcu": 1, "microgcu": 1000, "milligcu": 1000000, "gcu": 1000000000}
 
 type tspec struct {
 	name  string
@@ -31,7 +31,7 @@ type tspec struct {
 
 // "t" and "w" draw from the same unit family, so one unit string can occur in two columns of a
 // profile that need different conversions
-var typePool = []tspec{{"n", []string{"count"}}, {"t", []string{"milliseconds", "nanoseconds", "microseconds"}}, {"b", []string{"bytes", "kilobytes"}}, {"w", []string{"milliseconds", "microseconds", "nanoseconds"}}}
+var typePool = []tspec{{"n", []string{"count"}}, {"t", []string{"milliseconds", "nanoseconds", "microseconds"}}, {"b", []string{"bytes", "kilobytes"}}, {"w", []string{"milliseconds", "microseconds", "nanoseconds"}}, {"g", []string{"nanogcu", "microgcu", "milligcu", "gcu", "nanogcu"}}}
 
 // universe of named frames shared by all profiles of a tuple
 func genOne(r *rand.Rand, types [][2]string, nfn int) *profile.Profile {
@@ -50,7 +50,8 @@ func genOne(r *rand.Rand, types [][2]string, nfn int) *profile.Profile {
 	// dense ids: table sizes and id assignments differ from one profile of a tuple to the next
 	sub := r.Perm(nfn)[:1+r.Intn(nfn)]
 	for i, u := range sub {
-		p.Function = append(p.Function, &profile.Function{ID: uint64(i + 1), Name: fmt.Sprintf("f%d", u), SystemName: fmt.Sprintf("f%d", u), Filename: "x.go"})
+		// equally named functions of different source files (file-local helpers) are different functions
+		p.Function = append(p.Function, &profile.Function{ID: uint64(i + 1), Name: fmt.Sprintf("f%d", u), SystemName: fmt.Sprintf("f%d", u), Filename: []string{"x.go", "x.go", "x.go", "y.go"}[r.Intn(4)]})
 	}
 	// one location per function plus one inlined pair; a quarter of the profiles come from another
 	// build installed at the same path: the same offsets hold other functions there
@@ -104,6 +105,10 @@ type expEntry struct{ flat, cum int64 }
 
 // expected entries: entry-wise signed sum of the individual reports, values converted to the finest unit
 func expected(ins []input, tname string) (map[string]expEntry, int64) {
+	return expectedAt(ins, tname, "")
+}
+
+func expectedAt(ins []input, tname, gran string) (map[string]expEntry, int64) {
 	finest := int64(math.MaxInt64)
 	for _, in := range ins {
 		f := unitFactor[in.p.SampleType[typeIndex(in.p, tname)].Unit]
@@ -115,7 +120,7 @@ func expected(ins []input, tname string) (map[string]expEntry, int64) {
 	for _, in := range ins {
 		idx := typeIndex(in.p, tname)
 		f := unitFactor[in.p.SampleType[idx].Unit] / finest
-		rep := ref.Report(in.p, ref.ROpts{Index: idx})
+		rep := ref.Report(in.p, ref.ROpts{Index: idx, Gran: gran})
 		for k, e := range rep.Entries {
 			x := out[k.Printable()]
 			x.flat += in.sign * f * e.Flat
@@ -353,6 +358,24 @@ func runLinear(c *harness.Ctx) harness.Result {
 	}
 	if self && len(got) != 0 {
 		return harness.Violation("%s: a profile minus itself is not empty: %s", desc, fmtMap(got))
+	}
+	// the same with the source file as part of an entry's identity
+	if c.Index%3 == 1 {
+		outF, e := runTop(profs, srcs, bases, mode, chosen.name, unit, map[string]bool{"filefunctions": true}, "top")
+		if e != "" {
+			return harness.Violation("%s -filefunctions: %s", desc, e)
+		}
+		_, rowsF, err := parse.Top(outF)
+		if err != nil {
+			return harness.Violation("%s: -top -filefunctions unparseable: %v\n%s", desc, err, outF)
+		}
+		c.Stat("file_level_runs", 1)
+		wantF, _ := expectedAt(ins, chosen.name, "filefunctions")
+		if gotF := rowsToMap(rowsF); fmtMap(gotF) != fmtMap(wantF) {
+			res.Verdict = harness.Violated
+			res.Detail = fmt.Sprintf("%s -filefunctions: report is not the entry-wise signed sum of the individual reports per (function, file)\n got: %s\nwant: %s\n%s\n%s", desc, fmtMap(gotF), fmtMap(wantF), outF, describe(ins))
+			return res
+		}
 	}
 	// the same at address granularity (the binary is loaded at different addresses in the inputs)
 	if c.Index%3 == 0 {
